@@ -509,7 +509,7 @@ func TestVerifC36Reload(t *testing.T) {
 		c := rec.Case()
 		defer c.Done()
 
-		n := rapid.SampleFrom([]int{2, 2, 2, 3, 4}).Draw(t, "steps")
+		n := rapid.SampledFrom([]int{2, 2, 2, 3, 4}).Draw(t, "steps")
 		var yamls []string
 		var prev *c36Cfg
 		for i := 0; i < n; i++ {
